@@ -544,6 +544,46 @@ def run(ctx):
     synthetic(ctx)
     real_assembly(ctx)
     shipped(ctx)
+    applied(ctx)
+
+
+def applied(ctx, only=None):
+    """The matched entry must also be APPLIED: an instruction written with exactly the operand kinds an entry declares is not flagged
+    unknown by add_semantics (observe_at of the property: the tp_unknown / lt_unknown flags).  Entries with an EMPTY operand list
+    (ret, nop, vzeroupper, cltq ...) are the corner where 'found' and 'truthy' differ."""
+    import models
+    from osaca.parser import ParserX86ATT, ParserAArch64
+    archs = [a for a in models.nonempty_archs() if ctx.tier != "quick" or a in models.SMALL + ["zen2", "hsw"]]
+    n = 0
+    for a in ([only[0]] if only else archs):
+        mm, sem = models.load(a)
+        isa = mm.get_ISA().lower()
+        parser = ParserX86ATT() if isa == "x86" else ParserAArch64()
+        seen = set()
+        for e in mm._data["instruction_forms"]:
+            ops = e.get("operands") if isinstance(e, dict) else getattr(e, "operands", None)
+            name = e.get("name") if isinstance(e, dict) else getattr(e, "mnemonic", None)
+            tp = e.get("throughput") if isinstance(e, dict) else getattr(e, "throughput", None)
+            lt = e.get("latency") if isinstance(e, dict) else getattr(e, "latency", None)
+            if ops or not isinstance(name, str) or not name.isalnum() or name.lower() in seen or (only and name.lower() != only[1]):
+                continue
+            seen.add(name.lower())
+            try:
+                form = parser.parse_line("        " + name.lower(), 1)
+                if form.mnemonic is None or form.operands:
+                    continue
+                sem.assign_src_dst(form)
+                sem.assign_tp_lt(form)
+            except Exception as ex:  # noqa
+                ctx.violation("operandless-instruction-raises", "%s `%s`: %r" % (a, name.lower(), ex), {"kind": "applied", "arch": a, "name": name.lower(), "isa": isa})
+                continue
+            n += 1
+            ctx.count()
+            flags = list(form.flags or [])
+            if (tp is not None and "tp_unknown" in flags) or (lt is not None and "lt_unknown" in flags):
+                ctx.violation("matched-entry-not-applied", "%s `%s`: the model has an entry with no operands (throughput %s, latency %s) that get_instruction "
+                              "finds, yet add_semantics flags the instruction %s" % (a, name.lower(), tp, lt, flags), {"kind": "applied", "arch": a, "name": name.lower(), "isa": isa})
+    ctx.coverage["operandless_entries_applied"] = n
 
 
 # ------------------------------------------------------------------ replay
@@ -553,6 +593,8 @@ def replay(ctx, obj):
     r = obj["replay"]
     if "kind" not in r:
         return run(ctx)
+    if r["kind"] == "applied":
+        return applied(ctx, only=(r["arch"], r["name"]))
     isa = r["isa"]
     if r["kind"] == "asm":
         import models
